@@ -1,7 +1,7 @@
 (* C15 -- The filename generator yields unique, clean names in template order.
    This file contains only statements closed by [exact] and their assumptions.
-   Model: Model/Filenames.v (plasTeX/Filenames.py after notes/C15/fix-1.diff and fix-2.diff; the switches
-   legacy_reset / legacy_words reproduce the code before the repairs).  Spec definitions used below
+   Model: Model/Filenames.v (plasTeX/Filenames.py after notes/C15/fix-1.diff, fix-2.diff and fix-3.diff; the switches
+   legacy_reset / legacy_words / legacy_passes reproduce the code before the repairs).  Spec definitions used below
    (passed_over, chosen, wild_outcome, static_outcome, follows, stage, words_of, charsub_spec, the template
    grammar seg / wf_name / pr_int / pr_surf, spec_expand, var_value) are in Proofs/FilenamesProofs.v. *)
 From Coq Require Import List ZArith NArith Bool.
@@ -98,7 +98,7 @@ Theorem C15_first_bound_alternative_complete :
     legacy_reset c = false -> ph s = PWild wild g num passes -> lookup k_num (update (vars s) b) = None ->
     wild = pre ++ item :: post -> passed_over c (update (vars s) b) (inval s) num pre n1 ->
     chosen c (update (vars s) b) (inval s) n1 item name n' ->
-    request c s b = (RName name, {| ph := PWild wild g n' (passes + 1); vars := g; inval := inval s ++ [name] |}).
+    request c s b = (RName name, {| ph := PWild wild g n' (if legacy_passes c then passes + 1 else 0)%N; vars := g; inval := inval s ++ [name] |}).
 Proof. exact wildcard_request_complete. Qed.
 Print Assumptions C15_first_bound_alternative_complete.
 
@@ -186,8 +186,8 @@ Proof. exact parse_print_example. Qed.
 
 (* findings on the code before the repairs, on the faithful (legacy) Model *)
 Theorem C15_legacy_reset_refuted :
-  let c0 := {| cs := None; ext := []; legacy_reset := true; legacy_words := false |} in
-  let c1 := {| cs := None; ext := []; legacy_reset := false; legacy_words := false |} in
+  let c0 := {| cs := None; ext := []; legacy_reset := true; legacy_words := false; legacy_passes := false |} in
+  let c1 := {| cs := None; ext := []; legacy_reset := false; legacy_words := false; legacy_passes := false |} in
   let files := [FList [[101]; [36; 123; 105; 125]]] in
   let s0 := {| ph := PFresh files; vars := []; inval := [] |} in
   let reqs := [[]; [([105], [97])]] in
@@ -201,11 +201,21 @@ Theorem C15_legacy_words_refuted :
 Proof. exact words_limit_legacy_refuted. Qed.
 Print Assumptions C15_legacy_words_refuted.
 
+Theorem C15_legacy_passes_refuted :
+  let c0 := {| cs := None; ext := []; legacy_reset := false; legacy_words := false; legacy_passes := true |} in
+  let c1 := {| cs := None; ext := []; legacy_reset := false; legacy_words := false; legacy_passes := false |} in
+  let s0 := {| ph := PFresh [FList [[115; 36; 123; 110; 117; 109; 125]]]; vars := []; inval := [[115; 49; 48; 50]] |} in
+  let reqs := repeat [] 102 in
+  last (map fst (fst (run c0 s0 reqs))) RNone = RRaise K_Bail /\
+  last (map fst (fst (run c1 s0 reqs))) RNone = RName [115; 49; 48; 51].
+Proof. exact legacy_passes_refuted. Qed.
+Print Assumptions C15_legacy_passes_refuted.
+
 (* non-vacuity: template "index [$id, sect$num(4)]" with extension ".html" and "sect0002.html" reserved;
    requests {}, {id: a}, {id: a}, {} give index.html, a.html, sect0001.html (a.html is taken), sect0003.html (0002 is reserved) *)
 Example C15_nonvacuous :
   let spec := [105;110;100;101;120;32;91;36;105;100;44;32;115;101;99;116;36;110;117;109;40;52;41;93] in
-  let c := {| cs := None; ext := [46;104;116;109;108]; legacy_reset := false; legacy_words := false |} in
+  let c := {| cs := None; ext := [46;104;116;109;108]; legacy_reset := false; legacy_words := false; legacy_passes := false |} in
   match parse_filenames spec with
   | Some files =>
       files = [FStr [105;110;100;101;120]; FList [[36;123;105;100;125]; [115;101;99;116;36;123;110;117;109;46;52;125]]] /\
